@@ -11,4 +11,20 @@ PROP = 'C01'
 def run(tier):
     viols, cov, t0 = pf.run_family(PROP, tier)
     cov = pm.add_model_runs(PROP, tier, cov)
+    # design-level conformance: every pop of real searches is a step of AStar.tla (reported, never a violation by itself)
+    import random
+    from ..common import seed
+    from ..common import run_forked, Hang
+    try:
+        dc = run_forked(pf.design_conformance, 1500 if tier == 'quick' else 14400, tier, random.Random(seed() + 101))
+    except Hang as e:
+        dc = {'searches': 0, 'agenda_pops_replayed_against_AStar_actions': 0, 'groups': 0, 'states': 0, 'searches_deviating_from_AStar_tla': 0,
+              'deviation_clauses': {'DESIGN.replay_did_not_terminate (%s)' % e: 1}, 'invariants_violated_along_real_behaviours': []}
+    cov['design_conformance_with_AStar_tla'] = dc
+    cov['states'] += dc['states']
+    cov['transitions'] += dc['agenda_pops_replayed_against_AStar_actions']
+    cov['traces_validated_against_impl'] += dc['searches']
+    if dc['searches_deviating_from_AStar_tla'] or dc['invariants_violated_along_real_behaviours']:
+        print('NOTE design conformance: %d of %d searches deviate from AStar.tla: %s %s' % (dc['searches_deviating_from_AStar_tla'], dc['searches'],
+              dc['deviation_clauses'], dc['invariants_violated_along_real_behaviours']))
     return conclude(PROP, tier, viols, cov, t0, pf.ASSUMPTIONS)
